@@ -101,6 +101,11 @@ def main():
     readme = os.path.join(src, "README.md")
     if os.path.exists(readme):
         shutil.copy(readme, os.path.join(out, "AGENT_README.md"))
+    if "--confirm-only" in sys.argv:
+        meta["reported"] = {}
+        json.dump(meta, open(os.path.join(out, "meta.json"), "w"), indent=1)
+        print("%s: builds=%s tests=%s (confirmed, checks not run; use regress.py --write-meta)" % (rid, meta["builds"], meta["existing_tests_pass"]))
+        return 0
     rc, reported = run_checks(patch)
     meta["checks_exit"], meta["reported"] = rc, reported
     json.dump(meta, open(os.path.join(out, "meta.json"), "w"), indent=1)
